@@ -146,8 +146,11 @@ Unhandled(fam) ==
       [] fam \in {"comb", "ccomb"} -> never \cup {"Slice", "Subst", "Deriv", "Wild", "FunctionSymbol", "NaN"}
       [] fam \in {"coll", "ccoll"} -> never \cup {"Slice", "Subst", "Deriv", "NaN"}
       [] fam = "cbident" -> never \cup {"CallKw", "Slice", "Subst", "Deriv", "Min", "Max", "Wild", "NaN", "MV"}
+\* (a generic map_algebraic_leaf the user adds also serves the stock leaf kinds a traversal has
+\* no handler of its own for)
+ViaGeneric(rec) == IF "map_algebraic_leaf" \in UserImpl(rec) THEN {"Wild", "FunctionSymbol", "NaN"} ELSE {}
 AllHandled(rec, sub) ==
-    /\ \A i \in {sub.id} \cup DescOf(tab, sub.id) : kinds[i] \notin Unhandled(rec.cfg.fam)
+    /\ \A i \in {sub.id} \cup DescOf(tab, sub.id) : kinds[i] \notin (Unhandled(rec.cfg.fam) \ ViaGeneric(rec))
     /\ UnhandledUsers(rec, sub.id) = {}
     /\ ~Contains(sub, IsInvalidForeign)
 Drift(rec, sub, how) == IF how = "finished" THEN rec.cfg.F = << >> /\ ~AllHandled(rec, sub)
